@@ -582,7 +582,26 @@ func (u *Unit) boxFns(t types.Type) (box, unbox string) {
 
 // ------------------------------------------------------------------ heap components
 
+// canonStruct: named struct types defined from one another (type A B) share one underlying
+// *types.Struct; pointers to them may be converted into each other, so their heap components
+// must be the same. The first type seen for an underlying struct names the components.
+func (u *Unit) canonStruct(t types.Type) types.Type {
+	st, ok := t.Underlying().(*types.Struct)
+	if !ok {
+		return t
+	}
+	if _, named := t.(*types.Named); !named {
+		return t
+	}
+	if c, ok := u.eng.canonStructs[st]; ok {
+		return c
+	}
+	u.eng.canonStructs[st] = t
+	return t
+}
+
 func (u *Unit) fieldComp(structT types.Type, field string) (name, sort string) {
+	structT = u.canonStruct(structT)
 	name = "H$" + shortType(structT) + "$" + field
 	if s, ok := u.heapSorts[name]; ok {
 		return name, s
@@ -625,6 +644,7 @@ func isFlattened(ft types.Type) bool {
 
 // subRef returns the derived reference of a struct/array-typed field of the object at ref.
 func (u *Unit) subRef(structT types.Type, field string, ref string) string {
+	structT = u.canonStruct(structT)
 	fn := q("sub$" + shortType(structT) + "$" + field)
 	if !u.declSeen[fn] {
 		u.declSeen[fn] = true
